@@ -87,7 +87,7 @@ def coverage_protos():
                                   Field('meta', 'Seq', entry='Seq', named=False),
                                   Field('match', 'Body', key='MsgType', pairs=[([1], 'Logon'), ([2, 3], 'Logout'), ([4, 5, 6, 7, 8, 9, 10], 'Logon')]),
                                   Field('cksum', 'Check', ntype='u32', algo='CRC32', prefixed=True, typed=True)], root=True),
-                Packet('Logon', [fix('User', 8, pad=('left', '0')), dyn('Secret', 'char[]', doc=' pw \n'), fix('Zed', 4, zchar=True),
+                Packet('Logon', [fix('User', 8, pad=('left', '0'), tag=11), fix('Firm', 6, pad=('right', 'nul'), tag=12, doc='two attributes'), dyn('Secret', 'char[]', doc=' pw \n'), fix('Zed', 4, zchar=True),
                                  num('Nums', 'i64', repeat=True), Field('ref', 'Detail', packet='Detail', named=False, repeat=True),
                                  Field('inline', 'Extra', fields=[num('Xa', 'u8'), dyn('Ya', doc='y'), Field('inline', 'Deep', fields=[num('Za', 'f32')])], repeat=True)]),
                 Packet('Logout', [Field('meta', 'Mine', entry='Code', named=True, pad=('right', 'sp')), Field('ref', 'Info', packet='Detail', named=True)]),
